@@ -22,6 +22,7 @@ F_M2M_RENAME = 'F33'
 F_OPT = 'F20'
 F_COLUMN_NONE = 'F34'
 F_DELETED_TARGET = 'F35'
+F_RETYPE_COLUMN = 'F41'
 
 
 def rebuilt_tables(trace):
@@ -121,6 +122,8 @@ def crash_finding(exc, muts, rebuilt):
     if any(m['t'] == 'DeleteModel' for m in muts) and type(exc).__name__ in ('MissingSignatureError',
                                                                              'EvolutionBaselineMissingError'):
         return F_DELETED_TARGET, msg
+    if any(m['t'] == 'ChangeField' and m.get('ftype') for m in muts) and 'has no column named' in str(exc):
+        return F_RETYPE_COLUMN, msg
     if 'no such index' in str(exc) or 'no such column' in str(exc):
         if any(m['t'] == 'ChangeMeta' for m in muts) or '__unnamed_constraint' in str(exc):
             return F_TABLE_LEVEL, msg
